@@ -152,7 +152,8 @@ Definition pre_ev (Pm : params) (l : lst) (x : aux) (e : list Z) : list laction 
       let t := thr x (nw (base l)) za in
       if dfr x t
       then (B [if Z.eqb code 15 then AStep t else AYield t], x_dfr x (upd (dfr x) t false))
-      else if is_loop_code code then (settle Pm l (Z.to_nat o), x) else ([], x)
+      else if is_loop_code code then (settle Pm l (Z.to_nat o), x)
+      else if Z.eqb code 69 then (settle Pm l t, x) else ([], x)
   | _ => ([], x)
   end.
 
@@ -316,6 +317,7 @@ Definition plan_ev (l : lst) (x : aux) (ct : N) (e : list Z) : option plan :=
             | PdNone =>
                 match stk s t with
                 | FKer _ (KW k') :: _ => guardb (Nat.eqb k' k) (P (B [KStep t]) tt_ x)
+                | FKer _ K0 :: _ => P [LSpurWake k] tt_ x      (* Selector::add_io_timer: a new earliest I/O timer *)
                 | FKer _ _ :: _ => None
                 | FPan _ :: _ => None
                 | _ => match agent_pc s t with
@@ -384,8 +386,23 @@ Definition plan_ev (l : lst) (x : aux) (ct : N) (e : list Z) : option plan :=
             | Some c => guardb (is_pdnone (pnd x t) && memb c (slots s))
                           (P [] tt_ (set_pnd (x_slotb x (unbind o (slotb x))) t (PdHeld c)))
             | None => None end
-    (* ---- Selector::select: data.co.take() of an I/O event (the I/O slots are not bound here: only None is followed) ---- *)
-    | 66 => if Z.eqb v 0 then P [] tt_ x else None
+    (* ---- Selector::select: data.co.take() of an I/O event ---- *)
+    | 66 => if Z.eqb v 0 then P [] tt_ x else
+            match lookup o (slotb x), wpc l t with
+            | Some c, PEvs _ => guardb (Nat.ltb t n) (P (map LBase (release s c) ++ [LIoTake t c]) tt_ (x_slotb x (unbind o (slotb x))))
+            | _, _ => None end
+    (* ---- timeout_handler of schedule_timer: event_data.co.take() of an expired I/O timer ---- *)
+    | 69 => if Z.eqb v 0 then P [] tt_ x else
+            let ring := match wpc l t with
+                        | PSteal i => Some (repeat (LStEnd t) (maxst n - i)%nat ++ [LStOut t])
+                        | PTim => Some []
+                        | _ => None end in
+            match lookup o (slotb x), ring with
+            | Some c, Some r => guardb (Nat.ltb t n && negb (cend x t) && Nat.eqb (stn x t) 0)
+                                  (P (r ++ map LBase (release s c) ++ [LTmTake t c])
+                                     (fun l' => match wpc l' t with PRes RTim => true | _ => false end)
+                                     (x_slotb x (unbind o (slotb x))))
+            | _, _ => None end
     (* ---- life cycle (run_coroutine, closure wrapper) ---- *)
     | 11 => if Nat.ltb t n then
               match wpc l t with
@@ -397,9 +414,6 @@ Definition plan_ev (l : lst) (x : aux) (ct : N) (e : list Z) : option plan :=
               | PCo _ => match stk s t, lookup o (bindx x) with
                          | FKer c KRun :: _, Some c' => guardb (Nat.eqb c c') (P (B [Resume t c]) tt_ x)
                          | _, _ => None end
-              | PTim => match lookup o (bindx x) with
-                        | Some c => P (map LBase (release s c) ++ [LTmTake t c; LResume t]) tt_ x
-                        | None => None end
               | _ => None end
             else
               match stk s t, lookup o (bindx x) with
